@@ -60,8 +60,13 @@ MANIFEST = dict(
          'a value returns the receiver after storing into it (census_ok, c04_inplace_census_sound); Matrix->Angle->Matrix in '
          'binary64 outside the gimbal band is within 2e-13 of the exact rotation given sin/cos of the float Euler angles within '
          '2e-14 of the exact ones (c04_euler_roundtrip_binary64; the hypothesis is measured against 60-digit arithmetic on every '
-         'run: about 1.5e-15); c04_property composes all parts into one statement whose hypotheses are atan2_spec and the four '
-         'acceptance tests, and Props/C04Today.v proves the four tests for today\'s generated objects.  The trees, the table and the inverse program are '
+         'run: about 1.5e-15); the in-place rotation methods Vec.localise / Vec.transform() / Angle.transform() / Vec.rotate, '
+         'executed symbolically (the with-block body being `m @= rot` through the real Matrix.__imatmul__), leave the pure form '
+         'v @ angles + origin / v @ rot / a @ rot / v @ Angle(p, y, r) in the receiver (methods_ok, c04_inplace_methods_sound); '
+         'copy / __deepcopy__ / freeze / thaw / _new_copy of the matrix classes are `return self` only for a frozen copy and '
+         'otherwise field-for-field new objects of the right class (copies_ok, c04_matrix_copies_sound); '
+         'c04_property composes all parts into one statement whose hypotheses are atan2_spec and the five '
+         'acceptance tests, and Props/C04Today.v proves the five tests for today\'s generated objects.  The trees, the table and the inverse program are '
          'compared bit-for-bit with the running implementation; all identities are searched numerically within '
          '1e-9*max(1,|v|).',
     note='Exact real arithmetic except for the rounding theorems of _vec_rot/_mat_mul (rounded-real model of binary64: round '
@@ -73,9 +78,9 @@ MANIFEST = dict(
          'unroller; tied by the bit-exact correspondences; the polynomial expansion of the reified pieces is re-proved by ring), '
          'libm sin/cos/atan2/sqrt, Coq primitive floats = hardware binary64.  inverse() returning on every rotation is proved in exact arithmetic only: the 1e-5 '
          'threshold is passed with the proved margins (|pivot| bounds of the final intervals), but no float error bound for '
-         'the elimination is proved.  The in-place rotation methods (Vec.localise, Vec.transform(), Angle.transform(), '
-         'Vec.rotate) and the conversion entry points (copy, freeze/thaw, constructors, pickle, forward/left/up, from_angstr, '
-         'to_matrix) are searched only.  The in-place census is a path classification (what each path returns, how many stores '
+         'the elimination is proved.  The conversion entry points other than the zero-argument matrix conversions (constructors '
+         'from another object, pickle, forward/left/up, from_angstr, to_matrix, every vector / angle conversion) are searched '
+         'only; Vec.rotate is modelled for round_vals=False only.  The in-place census is a path classification (what each path returns, how many stores '
          'into the receiver precede it), not a value semantics: the values of += ... %= are compared with the pure operators by '
          'the oracle only; @= has the full dispatch model.  The Cython twin _math.pyx cannot be built and is not verified.',
 )
